@@ -170,6 +170,8 @@ class CollationManager(context_class_base):
 
     def eq(self, a: Any, b: Any) -> bool:
         if not isinstance(a, str) or not isinstance(b, str):
+            if isinstance(a, bool) is not isinstance(b, bool):
+                return False  # an xs:boolean is not equal to a number (True == 1 in Python)
             return bool(a == b)
         return self.strcoll(a, b) == 0
 
